@@ -352,7 +352,46 @@ func refFormatDate(f string, t time.Time) (string, bool) {
 func fmtDirected(r *rng.R) ([]cty.Value, string) {
 	flags := []string{"", "5", "-5", "05", "+", "10", "-8"}[r.Intn(7)]
 	pre, post := []string{"", "x=", "é "}[r.Intn(3)], []string{"", "|", " %%"}[r.Intn(3)]
-	switch r.Intn(8) {
+	switch r.Intn(12) {
+	case 8, 9, 10, 11: // several verbs, explicit argument indexes going forwards and backwards, then implicit ones again
+		for try := 0; try < 20; try++ {
+			k := 2 + r.Intn(3)
+			words := []string{"a", "bb", "c3", "dd4", "e"}
+			args := make([]interface{}, k)
+			vals := []cty.Value{cty.NilVal}
+			for i := range args {
+				args[i] = words[i]
+				vals = append(vals, cty.StringVal(words[i]))
+			}
+			nv := 2 + r.Intn(4)
+			var sb strings.Builder
+			cur, ok := 0, true
+			used := map[int]bool{}
+			for j := 0; j < nv; j++ {
+				if j > 0 {
+					sb.WriteString([]string{" ", "-", ""}[r.Intn(3)])
+				}
+				if r.Chance(45) {
+					n := 1 + r.Intn(k)
+					fmt.Fprintf(&sb, "%%[%d]s", n)
+					cur = n
+				} else {
+					sb.WriteString("%s")
+					cur++
+				}
+				if cur > k {
+					ok = false
+				}
+				used[cur] = true
+			}
+			if !ok || len(used) != k {
+				continue
+			}
+			f := pre + sb.String() + post
+			vals[0] = cty.StringVal(f)
+			return vals, fmt.Sprintf(f, args...)
+		}
+		return []cty.Value{cty.StringVal("%[2]s %[1]s %s"), cty.StringVal("a"), cty.StringVal("b")}, "b a b"
 	case 6: // precision and width of %s count grapheme clusters and never split one
 		s := graphemeStrs[r.Intn(len(graphemeStrs))]
 		cl := clustersOf(s)
